@@ -117,11 +117,20 @@ def _ec_key(cid, seed):
 
 def case_ec(cid, seeds, weak_pos):
   """CheckAllEC on the keys of the given seeds (one curve); optional weak neighbour (small
-  private key on the same curve) at weak_pos."""
+  private key on the same curve) at weak_pos. weak_pos = 'dup+pair': the first healthy key
+  occurs twice and a pair of keys with a small private-key difference follows."""
   w = world.load()
   hs = [_ec_key(cid, s) for s in seeds]
   batch = list(hs)
-  if weak_pos is not None:
+  if weak_pos == 'dup+pair' or weak_pos == 'dup+pair2':
+    n = G.curve(cid).n
+    d = G.rand_scalar('c07-pair-%d' % cid, n)
+    pair = [G.key_proto(cid, d), G.key_proto(cid, d + 777)]
+    dup = _ec_key(cid, seeds[0])
+    hs = hs + [dup]
+    batch = (hs[:1] + hs[1:2] + [dup] + pair + hs[2:-1]) if weak_pos == 'dup+pair' else (
+        hs[:1] + [dup] + pair[:1] + hs[1:-1] + pair[1:])
+  elif weak_pos is not None:
     batch = hs[:weak_pos] + [G.key_proto(cid, 0x4321 << 8)] + hs[weak_pos:]
   st, ret = guarded(w.paranoid.CheckAllEC, batch)
   if st == 'exc':
@@ -129,7 +138,7 @@ def case_ec(cid, seeds, weak_pos):
   bad = [(i, _positives(k)) for i, k in enumerate(hs) if not _clean(k)]
   if bad or (weak_pos is None and ret is not False):
     return ['healthy EC keys on %s (seeds %s%s): returned %r, accused: %s' %
-            (G.NAMES[cid], seeds, '' if weak_pos is None else ', weak neighbour at %d' % weak_pos,
+            (G.NAMES[cid], seeds, '' if weak_pos is None else ', weak neighbour layout %s' % (weak_pos,),
              ret, bad[:3])]
   return []
 
@@ -147,7 +156,8 @@ def ec_alone(cid, seeds):
 def ec_batches(cid, seeds):
   """Memory-heavy: several keys of one curve (default 2^24 difference table)."""
   r = Result()
-  layouts = [(seeds[:2], None), (seeds, None), (seeds[:2], 0), (seeds[:2], 1), (seeds[:2], 2)]
+  layouts = [(seeds[:2], None), (seeds, None), (seeds[:2], 0), (seeds[:2], 1), (seeds[:2], 2),
+             (seeds[:3], 'dup+pair'), (seeds[:3], 'dup+pair2')]
   for sds, wp in layouts:
     for b in case_ec(cid, list(sds), wp):
       r.violation(b, {'fn': 'ec', 'args': {'cid': cid, 'seeds': list(sds), 'weak_pos': wp}})
